@@ -15,14 +15,14 @@ HARNESS = ["props/C11/harness/root/zz_verif_c11_test.go"]
 
 
 def fmt(d):
-    return "race " + " ".join(f"{k}={d.get(k, 0)}" for k in ("dict", "rwq", "jl", "ncgate", "gate", "actor", "post", "encgate", "closer"))
+    return "race " + " ".join(f"{k}={d.get(k, 0)}" for k in ("dict", "rwq", "wt", "jl", "ncgate", "gate", "actor", "post", "encgate", "closer"))
 
 
 def gen_case(rng):
     d = {"dict": rng.choice([0, 1, 1]), "rwq": rng.choice([0, 1]), "gate": rng.choice([0, 1, 1]),
          "actor": rng.choice(["none", "publish", "subscribe", "subscribe", "disconnect", "publish2"]),
          "post": rng.choice(["none", "publish", "rpc", "rpc"]), "encgate": 0, "closer": "none",
-         "jl": rng.choice([0, 0, 1]), "ncgate": 0}
+         "jl": rng.choice([0, 0, 1]), "ncgate": 0, "wt": rng.choice([0, 0, 1])}
     if d["dict"] and rng.random() < 0.08:
         d.update({"ncgate": 1, "gate": 0, "actor": "none", "post": "none"})
         return fmt(d)
@@ -189,7 +189,7 @@ def run(ctx):
             ctx.record(key, nontrivial=cfg.get("actor") != "none" or cfg.get("encgate") == "1")
         else:
             ctx.evaluations += 1
-        for k in ("dict", "rwq", "jl", "ncgate", "gate", "actor", "post", "encgate", "closer"):
+        for k in ("dict", "rwq", "wt", "jl", "ncgate", "gate", "actor", "post", "encgate", "closer"):
             ctx.count(f"{k}={cfg.get(k)}")
         for n in kvs(out).get("notes", "-").split(","):
             if n != "-":
